@@ -143,11 +143,14 @@ def reference(pool: dict, job: dict) -> dict:
 
 
 def draw_strategy(rng: random.Random, est_events: int, t0_events: int) -> dict:
-    k = rng.choice(["random", "random", "random", "repo", "repo", "site", "site", "pct", "skew"])
+    k = rng.choice(["random", "random", "random", "repo", "repo", "site", "site", "pct", "skew", "rendezvous", "rendezvous", "rendezvous"])
     gcp = sorted(rng.randrange(1, max(2, est_events)) for _ in range(rng.choice([0, 0, 1, 3])))
     pal = rng.choice([0.0, 0.0, 0.1, 0.5, 1.0])
     if k == "random":
         return {"kind": "random", "mean_gap": rng.choice([10, 30, 100, 300, 3000, 30000]), "gc_points": gcp, "max_switches": 5000, "p_after_acquire": pal}
+    if k == "rendezvous":
+        return {"kind": "rendezvous", "q": rng.choice([0.05, 0.2, 0.5]), "burst_len": rng.choice([8, 16, 32]), "patience": rng.choice([50000, 300000]),
+                "gc_points": gcp, "max_switches": 2500, "p_after_acquire": pal}
     if k == "repo":
         return {"kind": "repo", "p_line": rng.choice([0.01, 0.05, 0.2, 0.5]), "p_entry": rng.choice([0.0, 0.0005, 0.005]), "gc_points": gcp, "max_switches": 8000, "p_after_acquire": pal}
     if k == "site":
@@ -203,6 +206,9 @@ def judge(sim: dict, plan, refs: dict, seq_events: int) -> list:
 
 
 def run_item(item: dict) -> dict:
+    # tables derived from the loaded code are built once per shard worker; the simulated processes (forks) inherit them
+    S.code_groups()
+    S.shared_lines()
     pool_seed, tier = item["pool_seed"], item["tier"]
     pool = forkrun(hw.make_pool, pool_seed, POOL_SIZES, timeout=300)
     res = {"pool_seed": pool_seed, "schedules": 0, "events": 0, "switches": 0, "violations": [], "strategies": {}, "switch_kinds": {},
@@ -313,7 +319,7 @@ def replay(payload: dict) -> dict:
 
 # ---- the check --------------------------------------------------------------------------------------------
 
-TIERS = {"quick": {"pools": 150, "schedules": 5, "wall_cap": 70.0}, "thorough": {"pools": 1200, "schedules": 8, "wall_cap": 1500.0}}
+TIERS = {"quick": {"pools": 200, "schedules": 5, "wall_cap": 70.0}, "thorough": {"pools": 1200, "schedules": 8, "wall_cap": 1500.0}}
 
 
 def check(rep, tier: str, master: int, only_idx=None) -> None:
